@@ -140,6 +140,11 @@ pub struct World {
     pub run_started: bool,
     /// observed select orders in race steps: (packet first, message first)
     pub race_orders: (u64, u64),
+    /// packet identifier -> op, for operations on the wire and not yet finished
+    pub ids_outstanding: std::collections::HashMap<u16, usize>,
+    /// skip the per-op result rules (used by very long runs which check them at chosen points only)
+    pub light: bool,
+    undecided: Vec<usize>,
 }
 
 #[derive(Default, Clone, Debug)]
@@ -246,6 +251,9 @@ impl World {
             connack_sum,
             run_started: false,
             race_orders: (0, 0),
+            ids_outstanding: std::collections::HashMap::new(),
+            light: false,
+            undecided: Vec::new(),
         };
         if w.connack_sum.is_none() {
             w.viol(P_ANY, "boot/connect-failed".into(), format!("connect() did not return ConnectRsp: {:?}", w.sim.last_ctx_result("connect")));
@@ -332,6 +340,7 @@ impl World {
                 self.m[i].race = true;
             }
             self.unsettled_submissions.push(i);
+            self.undecided.push(i);
         }
         self.sim.poll_op(i);
         if self.m[i].submit_step == 0 {
@@ -497,6 +506,9 @@ impl World {
         self.counters.acks_delivered += 1;
         if was_dropped {
             self.counters.late_acks += 1;
+        }
+        if Self::finished(&self.m[i]) && self.ids_outstanding.get(&id) == Some(&i) {
+            self.ids_outstanding.remove(&id);
         }
         self.sim.feed_packet(&pkt);
     }
@@ -776,12 +788,7 @@ impl World {
                         match p.id {
                             Some(id) => {
                                 // C11: unique among outstanding
-                                let clash = self.m.iter().enumerate().find(|(j, o)| {
-                                    *j != i && o.pkt_id == Some(id) && o.req_wire.is_some() && o.kind != Kind::Ping && o.kind != Kind::Disc && o.kind != Kind::Pub0 && !Self::finished(o)
-                                });
-                                if let Some((j, _)) = clash {
-                                    self.viol(P_C11, "C11/duplicate-packet-id".into(), format!("op{i}: PUBLISH uses packet identifier {id}, still outstanding for op{j}"));
-                                }
+                                self.check_id_unique(i, id);
                                 self.m[i].pkt_id = Some(id);
                             }
                             None => {
@@ -950,12 +957,12 @@ impl World {
     }
 
     fn check_id_unique(&mut self, i: usize, id: u16) {
-        let clash = self.m.iter().enumerate().find(|(j, o)| {
-            *j != i && o.pkt_id == Some(id) && o.req_wire.is_some() && matches!(o.kind, Kind::Pub1 | Kind::Pub2 | Kind::Sub | Kind::Unsub) && !Self::finished(o)
-        });
-        if let Some((j, _)) = clash {
-            self.viol(P_C11, "C11/duplicate-packet-id".into(), format!("op{i} uses packet identifier {id}, still outstanding for op{j}"));
+        if let Some(&j) = self.ids_outstanding.get(&id) {
+            if j != i && !Self::finished(&self.m[j]) {
+                self.viol(P_C11, "C11/duplicate-packet-id".into(), format!("op{i} uses packet identifier {id}, still outstanding for op{j} (its acknowledgement has not been sent yet)"));
+            }
         }
+        self.ids_outstanding.insert(id, i);
     }
 
     fn note_order(&mut self, i: usize) {
@@ -1003,7 +1010,7 @@ impl World {
 
         // --- acceptance decisions, in submission order
         if serving {
-            let mut order: Vec<usize> = (0..self.m.len()).filter(|&i| self.m[i].submitted && self.m[i].accepted.is_none() && !self.m[i].after_ctx_drop && !self.m[i].after_term).collect();
+            let mut order: Vec<usize> = std::mem::take(&mut self.undecided).into_iter().filter(|&i| self.m[i].accepted.is_none() && !self.m[i].after_ctx_drop && !self.m[i].after_term).collect();
             order.sort_by_key(|&i| self.m[i].submit_step);
             for i in order {
                 let on_wire = self.m[i].req_wire.is_some();
@@ -1095,7 +1102,8 @@ impl World {
         }
 
         // --- per-op result rules
-        for i in 0..self.m.len() {
+        let nops = if self.light { 0 } else { self.m.len() };
+        for i in 0..nops {
             if self.m[i].dropped || self.sim.ops[i].held {
                 continue;
             }
@@ -1206,7 +1214,7 @@ impl World {
 
         // --- cancelled QoS 2 publishes: the handshake must still complete (slot must be freed eventually)
         if serving {
-            for i in 0..self.m.len() {
+            for i in 0..nops {
                 let m = &self.m[i];
                 if m.dropped && self.sim.ops[i].dropped && m.kind == Kind::Pub2 && m.req_wire.is_some() && m.ack1 && m.ack1_ok && !m.ack2 && m.rel_wire.is_none() && !m.checked_done {
                     self.m[i].checked_done = true;
@@ -1220,7 +1228,7 @@ impl World {
         }
 
         // --- streams
-        for i in 0..self.m.len() {
+        for i in 0..nops {
             if self.m[i].kind != Kind::Sub {
                 continue;
             }
@@ -1247,7 +1255,7 @@ impl World {
                 let props = if items[k].qos == 2 { P_C07_09 } else { P_C07 };
                 self.viol(
                     props,
-                    format!("C07/stream-item-mismatch/qos={}{}", items[k].qos, if dup { "/duplicate" } else { "" }),
+                    format!("stream/item-mismatch/qos={}{}", items[k].qos, if dup { "/duplicate" } else { "" }),
                     format!("stream of op{i}: item {k} is {} but the model expects {}", items[k].brief(), exp[k].brief()),
                 );
                 self.m[i].stream_dropped = true;
@@ -1258,7 +1266,7 @@ impl World {
                 let props = if x.qos == 2 { P_C07_09 } else { P_C07 };
                 self.viol(
                     props,
-                    format!("C07/stream-extra-item/qos={}", x.qos),
+                    format!("stream/extra-item/qos={}", x.qos),
                     format!("stream of op{i} yielded {} items, the model expects {}: extra {}", items.len(), exp.len(), x.brief()),
                 );
                 self.m[i].stream_dropped = true;
@@ -1268,7 +1276,7 @@ impl World {
                 let x = &exp[items.len()];
                 self.viol(
                     P_C07,
-                    format!("C07/stream-missing-item/qos={}", x.qos),
+                    format!("stream/missing-item/qos={}", x.qos),
                     format!("stream of op{i} yielded {} items at quiescence, the model expects {}: missing {}", items.len(), exp.len(), x.brief()),
                 );
                 self.m[i].stream_dropped = true;
